@@ -72,7 +72,7 @@ class ParserState:
         # Rules matched in that context don't produce pairs.
         self.hide_pairs = False
         self.rule_stack = Stack[Rule | RuleFrame]()  # RuleFrame is for generated code.
-        self.tag_stack: list[str] = []  # User tags are always enabled
+        self.tag_stack = Stack[str]()  # User tags are always enabled
         self.user_stack = Stack[str]()  # PUSH/POP/PEEK/DROP
 
     def parse_trivia(self, pairs: list[Pair]) -> bool:
@@ -130,6 +130,7 @@ class ParserState:
         """
         self.user_stack.snapshot()
         self.rule_stack.snapshot()
+        self.tag_stack.snapshot()
         self.atomic_depth.snapshot()
         self._pos_history.append(self.pos)
 
@@ -141,6 +142,7 @@ class ParserState:
         """
         self.user_stack.drop_snapshot()
         self.rule_stack.drop_snapshot()
+        self.tag_stack.drop_snapshot()
         self.atomic_depth.drop()
         self._pos_history.pop()
 
@@ -152,6 +154,7 @@ class ParserState:
         """
         self.user_stack.restore()
         self.rule_stack.restore()
+        self.tag_stack.restore()
         self.atomic_depth.restore()
         self.pos = self._pos_history.pop()
 
@@ -218,7 +221,7 @@ class ParserState:
     @contextmanager
     def tag(self, tag_: str) -> Iterator[ParserState]:
         """A context manager that removes `tag_` on exit."""
-        self.tag_stack.append(tag_)
+        self.tag_stack.push(tag_)
         yield self
         if self.tag_stack:
             self.tag_stack.pop()
